@@ -266,11 +266,11 @@ class StmtMixin:
                     old = st.env.get(k)
                     if old is None or old.ty != sv.ty or not _same(old.t, sv.t): mod_env[k] = sv.ty
                 for k, arr in s2.heap.items():
-                    if k not in st.heap or not st.heap[k].eq(arr): mod_heap.add(k)
+                    if not self.harr(st, *k).eq(arr): mod_heap.add(k)
                 if not s2.alloc.eq(st.alloc): alloc_changed = True
             for s2, e in sink:
                 for k, arr in s2.heap.items():
-                    if k not in st.heap or not st.heap[k].eq(arr): mod_heap.add(k)
+                    if not self.harr(st, *k).eq(arr): mod_heap.add(k)
         finally:
             self.quiet -= 1
         return mod_env, mod_heap, alloc_changed
